@@ -196,7 +196,49 @@ pub fn record_c08(a: &Args) -> usize {
         let bus = Rc::new(RefCell::new(VirtualSignBus::new(vec![s])));
         run_program(&mut out, &mut rng, bus, addr, ALL_TYPES[w % 11], ALL_TYPES[(w * 7 + 3) % 11]);
     }
-    println!("INFO {}", json!({"prior_states": priors}));
+    // very long lists: chunk totals just below, at and just above 2^16 (every 16-bit counter on the way wraps there), for
+    // every sign type; recorded as a digest (number of pages, index of the first page that differs from what was sent)
+    let mut big = 0usize;
+    for (ti, typ) in ALL_TYPES.iter().enumerate() {
+        let (w, h) = typ.dimensions();
+        let cpp = (Page::new(PageId(0), w, h).as_bytes().len() + 15) / 16;
+        let at = (65536 + cpp - 1) / cpp;
+        let mut counts = vec![at - 1, at, at + 1];
+        if thorough {
+            counts.extend_from_slice(&[2 * 65536 / cpp, 2 * 65536 / cpp + 1]);
+        } else if ti % 4 != (a.seed as usize) % 4 && 65536 % cpp != 0 {
+            continue; // quick: the types whose pages divide 2^16 exactly, and a rotating quarter of the others
+        }
+        for (ci, n) in counts.into_iter().enumerate() {
+            out.balance();
+            let addr = addrs[(ti + ci) % 8];
+            let flip = if (ti + ci) % 2 == 0 { PageFlipStyle::Manual } else { PageFlipStyle::Automatic };
+            let bus = Rc::new(RefCell::new(VirtualSignBus::new(vec![VirtualSign::new(Address(addr), flip)])));
+            let sign = Sign::new(bus.clone(), Address(addr), *typ);
+            out.emit(json!({"e": "prior", "addr": addr, "flip": flip_name(flip), "obs": obs(bus.borrow().sign(0)), "path_len": 0}));
+            out.emit(json!({"e": "call", "name": "configure", "typ": format!("{:?}", typ), "w": w, "h": h, "items": []}));
+            let o = run_call(&sign, "configure", &[]);
+            out.emit(json!({"e": "ret", "out": o, "obs": obs(bus.borrow().sign(0))}));
+            let pages: Vec<Page<'static>> = (0..n)
+                .map(|i| {
+                    let mut p = Page::new(PageId((i % 251) as u8), w, h);
+                    p.set_pixel((i as u32) % w, ((i / w as usize) as u32) % h, true);
+                    p.set_pixel(((i >> 8) as u32) % w, h - 1, true);
+                    p
+                })
+                .collect();
+            out.emit(json!({"e": "bigcall", "name": "send_pages", "typ": format!("{:?}", typ), "w": w, "h": h, "n": n, "chunks": n * cpp}));
+            let o = run_call(&sign, "send_pages", &pages);
+            let b = bus.borrow();
+            let sg = b.sign(0);
+            let stored = sg.pages();
+            let first_diff = (0..stored.len().max(pages.len())).find(|&i| i >= stored.len() || i >= pages.len() || stored[i].as_bytes() != pages[i].as_bytes()
+                || stored[i].width() != w || stored[i].height() != h).map(|i| i as i64).unwrap_or(-1);
+            out.emit(json!({"e": "bigret", "out": o, "st": j::state_name(sg.state()), "typ": type_name(sg.sign_type()), "n_pages": stored.len(), "first_diff": first_diff}));
+            big += 1;
+        }
+    }
+    println!("INFO {}", json!({"prior_states": priors, "big_sends": big}));
     let _ = type_name(None);
     out.finish()
 }
